@@ -5,4 +5,5 @@ From LH Require Import Base.Bytes Base.Res Base.Utf8 Model.Codec Model.Lexer Mod
 Extraction "c13model.ml" extract_anchor pre_num is_utf8 convert utf8_of scalar is_two_byte
   tk_code lex_all parse_bytes classify_tok tok_loc
   comment_writes cm_find cm_lookup get_line_comment get_str_comment final_comment hover_doc hover hover_with
-  spec_attach attach_guard keys_nodup leading_empty spec_entries gap_ok render_gap.
+  spec_attach attach_guard keys_nodup spec_entries gap_ok render_gap
+  file_class file_table file_gaps spec_comment pure_at parse_gap parser_reads_all.
